@@ -261,6 +261,9 @@ PLANS["C20"] = {
         # export / import / create-by-query histories (also on names that exist), closed at the end
         T("io", "io", (20, 400), ["InvNoPanic"], backends="bolt,badger"),
         EDG("edges", ["InvNoPanic"], states=(20, 0), reads=(30, 200), writes=(10, 40)),
+        # the handle is closed by one goroutine while others use it: every call returns (no panic, no call that waits for
+        # ever), Close takes effect at one instant, and the calls after it fail (TraceLin with the open flag)
+        {"kind": "lin", "name": "lin-close", "n": (150, 3000), "maxg": 5, "ops": 8, "family": "close", "chunk": 15, "seed_off": 83},
         # the public query / index / document APIs called directly
         AUX("satisfy", "satisfy", (250, 5000), invariants=["InvAuxNoPanic"]),
         AUX("scan", "scan", (30, 600), invariants=["InvAuxNoPanic"]),
